@@ -1,8 +1,9 @@
 use aelys_sema::TypedExpr;
 use std::collections::HashMap;
 
+// None = the name is bound in this scope to something that is not a known constant
 pub struct ScopeStack {
-    scopes: Vec<HashMap<String, TypedExpr>>,
+    scopes: Vec<HashMap<String, Option<TypedExpr>>>,
 }
 
 impl ScopeStack {
@@ -24,14 +25,25 @@ impl ScopeStack {
 
     pub fn insert(&mut self, name: String, expr: TypedExpr) {
         if let Some(scope) = self.scopes.last_mut() {
-            scope.insert(name, expr);
+            scope.insert(name, Some(expr));
         }
+    }
+
+    // a new binding of `name` that is not a constant hides any outer constant
+    pub fn shadow(&mut self, name: String) {
+        if let Some(scope) = self.scopes.last_mut() {
+            scope.insert(name, None);
+        }
+    }
+
+    pub fn depth(&self) -> usize {
+        self.scopes.len()
     }
 
     pub fn get(&self, name: &str) -> Option<&TypedExpr> {
         for scope in self.scopes.iter().rev() {
-            if let Some(expr) = scope.get(name) {
-                return Some(expr);
+            if let Some(entry) = scope.get(name) {
+                return entry.as_ref();
             }
         }
         None
@@ -39,7 +51,8 @@ impl ScopeStack {
 
     pub fn invalidate(&mut self, name: &str) {
         for scope in self.scopes.iter_mut().rev() {
-            if scope.remove(name).is_some() {
+            if let Some(entry) = scope.get_mut(name) {
+                *entry = None;
                 return;
             }
         }
